@@ -3,4 +3,5 @@ package drivers
 // Registry maps driver names to entry points.
 var Registry = map[string]func(Args) error{
 	"codec": Codec,
+	"frame": Frame,
 }
